@@ -72,6 +72,18 @@ HalfOK(H, v, active) == H = ExpHalf(v, active)
 \* not demanded by the statement, reported as conformance drift only: the cap is used up
 FilterTight(F, v, pct) == Cardinality(F) = Min2(Cardinality(Rejecting(v)), Cap(Cardinality(DOMAIN v), pct))
 
+\* "nothing to report": no breaker rejects and no node is passively probed - the answer must be two EMPTY lists
+\* (implied by FilterOK /\ HalfOK; named because it is the case a "nothing to do" shortcut gets wrong)
+Quiet(v, active) == Rejecting(v) = {} /\ ExpHalf(v, active) = {}
+QuietOK(F, H, v, active) == Quiet(v, active) => F = {} /\ H = {}
+
+\* The answer lists live in the rule-check result of a POOLED entry context: a context that goes back to the pool
+\* keeps whatever lists its last entry left in it (resetting the result to "pass" does not clear them), and the next
+\* entry - of ANY resource - that draws it starts with that residue.  A correct slot overwrites both lists on
+\* every request, so the residue never shows.
+FreshCtx == [filter |-> {}, half |-> {}]
+Answer(F, H) == [filter |-> F, half |-> H]
+
 \* nodes a user can see in a request's answer
 Visible(v, active) == Rejecting(v) \cup ExpHalf(v, active)
 
